@@ -583,3 +583,73 @@ def nest3_deep():
 
 
 ALL["nest3_deep"] = nest3_deep
+
+
+def ids_implicit():
+    """a transition-less initial state next to states that occur in the Next column only (finding KF-3: the back-ends
+    number them differently)"""
+    return {
+        "name": "ids_implicit",
+        "events": ["E0", "E1", "E2", "E3"],
+        "machines": [
+            {"name": "Top", "regions": [["A", "S"]], "kinds": {"S": "sub:Sub"},
+             "rows": ["A + E0 / a0 -> S", "S + E1 [g0] / a1 -> A"]},
+            {"name": "Sub", "regions": [["P", "Q", "R"], ["B"]],
+             "rows": ["P + E2 [g1] / a2 -> Q", "P + E3 / a3 -> R"]},
+        ],
+    }
+
+
+def hist_exit_pt():
+    """an always-history sub-machine that is left through an exit point and re-entered (finding KF-4: back forwards again
+    from the entry of the restored exit point, backmp11 stays in it)"""
+    return {
+        "name": "hist_exit_pt",
+        "events": ["E0", "E1", "E2", {"name": "X3", "exit": True}],
+        "machines": [
+            {"name": "Top", "regions": [["A", "S"]], "kinds": {"S": "sub:Sub"},
+             "rows": ["A + E0 / a0 -> S", "S.XP + X3 / a1 -> A", "A + E1 [g0] -> S", "S + E0 [g2] / a3 -> A"]},
+            {"name": "Sub", "regions": [["P", "Q", "XP"]], "kinds": {"XP": "exit_pt:X3"}, "history": "always",
+             "rows": ["P + E2 [g1] -> Q", "Q + E2 / a2 -> XP", "P + E1 -> XP", "Q + E1 -> P"]},
+        ],
+    }
+
+
+ALL["ids_implicit"] = ids_implicit
+ALL["hist_exit_pt"] = hist_exit_pt
+
+
+def blocking_completion():
+    """terminate / interrupt states next to regions with completion transitions: the same event enters a completion
+    source in a lower and in a higher region than the blocking state; an end-interrupt event enters completion sources"""
+    return {
+        "name": "blocking_completion",
+        "events": ["E0", "E1", "E2", "E3", "E4"],
+        "machines": [{
+            "name": "Top", "regions": [["A", "B", "C"], ["Ok", "I", "T"], ["P", "Q", "R"]],
+            "kinds": {"T": "terminate", "I": "interrupt:E3"},
+            "rows": ["A + E0 / a0 -> B", "B [g0] / a1 -> C", "C + E1 / a2 -> A", "C + E3 / a3 -> B",
+                     "Ok + E0 [g1] / a4 -> I", "I + E3 [g2] / a5 -> Ok", "Ok + E2 [g3] / a6 -> T", "Ok + E4 / a7",
+                     "P + E0 / a8 -> Q", "Q / a9 -> R", "R + E1 / a10 -> P", "P + E3 / a11 -> Q", "R + E2 [g4] -> Q"],
+            "state": {"I": {"flags": ["F0"]}},
+        }],
+    }
+
+
+ALL["blocking_completion"] = blocking_completion
+
+
+def completion_regions():
+    """one event enters completion sources in two regions (finding KF-5: order of the completion steps across regions)"""
+    return {
+        "name": "completion_regions",
+        "events": ["E0", "E1", "E2"],
+        "machines": [{
+            "name": "Top", "regions": [["A", "B", "C"], ["P", "Q", "R"]],
+            "rows": ["A + E0 / a0 -> B", "B [g0] / a1 -> C", "C + E1 / a2 -> A", "B + E1 -> A",
+                     "P + E0 / a3 -> Q", "Q / a4 -> R", "R + E1 / a5 -> P", "P + E2 [g1] / a6 -> Q"],
+        }],
+    }
+
+
+ALL["completion_regions"] = completion_regions
